@@ -303,3 +303,12 @@ func (r *Run) BuildBin(name, pkg string, race bool) string {
 	}
 	return out
 }
+
+// Repo is the repository under test (/repo; VERIF_REPO overrides it when a
+// monitor is tried against a scratch copy).
+func Repo() string {
+	if p := os.Getenv("VERIF_REPO"); p != "" {
+		return p
+	}
+	return "/repo"
+}
